@@ -13,6 +13,7 @@ import (
 	"bytes"
 	"encoding/base64"
 	stdjson "encoding/json"
+	"errors"
 	"fmt"
 	"io"
 	"reflect"
@@ -611,6 +612,30 @@ func c10LongKeys(c *Ctx) {
 	}
 }
 
+// pieceReader hands out its pieces one per Read (a piece longer than the caller's buffer in several parts)
+type pieceReader struct {
+	pieces  [][]byte
+	withErr bool
+}
+
+var errTransient = errors.New("try again")
+
+func (r *pieceReader) Read(p []byte) (int, error) {
+	if len(r.pieces) == 0 {
+		return 0, io.EOF
+	}
+	n := copy(p, r.pieces[0])
+	if n == len(r.pieces[0]) {
+		r.pieces = r.pieces[1:]
+	} else {
+		r.pieces[0] = r.pieces[0][n:]
+	}
+	if r.withErr && len(r.pieces) > 0 {
+		return n, errTransient
+	}
+	return n, nil
+}
+
 func c10DecoderStreams(c *Ctx) {
 	type kept struct {
 		v    reflect.Value
@@ -646,18 +671,45 @@ func c10DecoderStreams(c *Ctx) {
 	for ti, mk := range targets {
 		for _, sep := range []string{"\n", "", " \t "} {
 			var stream bytes.Buffer
+			var pieces [][]byte
 			count := 120
 			for i := 0; i < count; i++ {
+				at := stream.Len()
 				stream.WriteString(docFor(ti, i))
 				if sep == "" && (ti == 7 || ti == 1 || ti == 3) {
 					stream.WriteString(" ") // scalars need a separator
 				}
 				stream.WriteString(sep)
+				pieces = append(pieces, append([]byte(nil), stream.Bytes()[at:]...))
 			}
-			for _, chunk := range []int{0, 1000, 4096} {
+			// chunk -1: every Read delivers one document and what separates it from the next, so that each value ends
+			// where the buffered data ends while more is to come; -2: two documents per Read
+			// -3: every document and the white space behind it padded to a multiple of 4096 bytes, so that documents end where
+			// the Decoder's buffer (32768 bytes, doubled when a document needs it) ends; -4: as -1, each Read also returns an
+			// error of the transient kind next to its data, which ends the Decoder's attempt to fill its buffer
+			for _, chunk := range []int{0, 1000, 4096, -1, -2, -3, -4} {
 				var src io.Reader = bytes.NewReader(stream.Bytes())
 				if chunk > 0 {
 					src = onlyRead{src, chunk}
+				} else if chunk == -3 {
+					var padded bytes.Buffer
+					for _, pc := range pieces {
+						padded.Write(pc)
+						padded.WriteString(strings.Repeat(" ", (4096-len(pc)%4096)%4096))
+					}
+					src = bytes.NewReader(padded.Bytes())
+				} else if chunk == -4 {
+					src = &pieceReader{pieces: append([][]byte(nil), pieces...), withErr: true}
+				} else if chunk < 0 {
+					pr := &pieceReader{}
+					for i := 0; i < len(pieces); i += -chunk {
+						var b []byte
+						for j := i; j < i-chunk && j < len(pieces); j++ {
+							b = append(b, pieces[j]...)
+						}
+						pr.pieces = append(pr.pieces, b)
+					}
+					src = pr
 				}
 				d := json.NewDecoder(src)
 				var all []kept
